@@ -186,7 +186,8 @@ fn c08_lz10_len5() {
     check_lz10(&data, 5, true);
 }
 
-// @tier thorough
+// @tier offline
+// @offline not registered: exceeded the quick limits (match search over symbolic bytes) and was not run to completion
 // @timeout 3000
 // @mem 12
 // @bounds every input of exactly 6 bytes (all 2^48 contents)
@@ -198,7 +199,8 @@ fn c08_lz10_len6() {
     check_lz10(&data, 6, true);
 }
 
-// @tier thorough
+// @tier offline
+// @offline not registered: exceeded the quick limits (match search over symbolic bytes) and was not run to completion
 // @timeout 3600
 // @mem 12
 // @bounds every input of exactly 7 bytes (all 2^56 contents)
@@ -316,7 +318,8 @@ fn c09_lz13_len2() {
     check_lz13(&data, 2);
 }
 
-// @tier thorough
+// @tier offline
+// @offline not registered: exceeded the quick limits (match search over symbolic bytes) and was not run to completion
 // @timeout 3600
 // @mem 16
 // @bounds every input of exactly 3 bytes (all 2^24 contents)
@@ -328,7 +331,8 @@ fn c09_lz13_len3() {
     check_lz13(&data, 3);
 }
 
-// @tier thorough
+// @tier offline
+// @offline not registered: exceeded the quick limits (match search over symbolic bytes) and was not run to completion
 // @timeout 3600
 // @mem 16
 // @bounds every input of exactly 4 bytes (all 2^32 contents)
@@ -340,7 +344,8 @@ fn c09_lz13_len4() {
     check_lz13(&data, 4);
 }
 
-// @tier thorough
+// @tier offline
+// @offline not registered: exceeded the quick limits (match search over symbolic bytes) and was not run to completion
 // @timeout 3600
 // @mem 16
 // @bounds every input of exactly 5 bytes (all 2^40 contents)
@@ -352,7 +357,8 @@ fn c09_lz13_len5() {
     check_lz13(&data, 5);
 }
 
-// @tier thorough
+// @tier offline
+// @offline not registered: exceeded the quick limits (match search over symbolic bytes) and was not run to completion
 // @timeout 3600
 // @mem 16
 // @bounds every 5-byte input of the shape a b a b a with symbolic a and b (the smallest inputs that can contain a back-reference)
@@ -489,6 +495,40 @@ fn c10_expansion_lz13() {
     assert!(out.len() <= 8 + len + (len + 7) / 8, "C10: LZ13 output exceeds header + input + one flag byte per eight bytes");
     kani::cover!(five);
     std::mem::forget(out);
+}
+
+fn expansion_case(lz13: bool, x: &[u8]) {
+    let n = x.len();
+    let out = if lz13 { keep(LZ13CompressionFormat {}.compress(x)) } else { keep(LZ10CompressionFormat {}.compress(x)) };
+    match out {
+        Some(out) => {
+            let header = if lz13 { 8 } else { 4 };
+            assert!(out.len() <= header + n + (n + 7) / 8, "C10: output exceeds header + input + one flag byte per eight input bytes (a full flag group must not be followed by an empty one)");
+            std::mem::forget(out);
+        }
+        None => assert!(lz13 && n == 0, "C10: compression may only refuse the empty input (LZ13)"),
+    }
+}
+
+// @tier quick
+// @timeout 900
+// @mem 12
+// @bounds concrete inputs without any repetition whose token count fills whole flag groups: the empty input, 8 distinct bytes, 16 distinct bytes; LZ10 and LZ13 (solver-chosen arm)
+// @claims C10 expansion bound at the flag-group boundary: exactly header + n + n/8 bytes at most when the last flag group is full, header only for the empty input
+#[kani::proof]
+#[kani::unwind(20)]
+fn c10_expansion_full_flag_groups() {
+    let sel: u8 = kani::any();
+    kani::assume(sel < 6);
+    let x16: [u8; 16] = [1, 2, 3, 4, 5, 6, 7, 8, 9, 10, 11, 12, 13, 14, 15, 16];
+    if sel == 0 { expansion_case(false, &x16[..0]); }
+    if sel == 1 { expansion_case(false, &x16[..8]); }
+    if sel == 2 { expansion_case(false, &x16); }
+    if sel == 3 { expansion_case(true, &x16[..0]); }
+    if sel == 4 { expansion_case(true, &x16[..8]); }
+    if sel == 5 { expansion_case(true, &x16); }
+    kani::cover!(sel == 1);
+    kani::cover!(sel == 5);
 }
 
 // @tier quick
